@@ -127,7 +127,10 @@ G_C18_Inert(o) == \A i \in DOMAIN o.findings : ~o.findings[i].inname /\ ~o.findi
 C18Guards(r, o) == {<<"G_C18_Inert", G_C18_Inert(o)>>, <<"G_C10_NoPanic", ~o.panic>>}
 Sinks == {"login_dest_loginpage", "login_dest_2fapage", "user_query_root", "user_form_login_fail", "profile_path_user",
           "token_name_profile", "totp_name_profile", "oidc_authorize_unauth", "showtoken_unauth", "login_error_user",
-          "users_page_names", "newtotp_error", "bootstrap_fingerprint_user", "logout_user"}
+          "users_page_names", "newtotp_error", "bootstrap_fingerprint_user", "logout_user",
+          \* error_details: requests whose refusal message quotes the offending parameter, asked for as a browser would;
+          \* session_user_pages: every page a logged-in user can open, the user NAME being the payload
+          "error_details", "session_user_pages"}
 PayloadSeqs == UNION {[1..k -> PayloadAtoms] : k \in 1..2}
 InC18(r) == \E s \in Sinks, p \in PayloadSeqs : r = [sink |-> s, payload |-> p]
 
